@@ -277,5 +277,5 @@ MANIFEST = {
     "text": "The diff check that decides a non-force run is under statement contracts (every generated / existing file is accounted for); determinism and "
             "the re-run clauses are compared over a matrix of hash seeds, processes, roots, clocks, prior runs and perturbed trees.",
     "note": "Byte identity between runs is sampled, not proved. pathlib/difflib uninterpreted.",
-    "technique": "contract-based deductive verification (statement contracts over uninterpreted pathlib, z3) + bounded differential runs in subprocesses",
+    "technique": "contract-based deductive verification (statement contracts over uninterpreted pathlib, ordered-iteration contracts, z3) + exact set-iteration census of the generator source + bounded differential runs in subprocesses",
 }
